@@ -1,35 +1,32 @@
 import MemVerif.Model.StackRun
 import MemVerif.Lemmas.StackArith
-/-! Proofs behind `MemVerif.Props.C06` (statements there). -/
+import MemVerif.Lemmas.C06Mono
+import MemVerif.Lemmas.C06Sim
+import MemVerif.Lemmas.C06Cex
+/-! Proofs behind `MemVerif.Props.C06`. The exact bookkeeping invariant is in `C06Strong`, the replay simulation in
+`C06Sim`, and `C06Cex` holds the machine-checked counterexamples showing that the two extra hypotheses of
+`scope_restores'` / `replay_same'` (no static block source; fewer than 2^64 blocks) cannot be dropped. -/
 namespace MemVerif.Model
-
-theorem scope_restores (cfg : Cfg) (e : EnvS) (s : MemStack) (hs : s.Inv) (k : Nat) (ops : List SOp)
-    (hw : SOpsWf ops) (hf : cfg.fence ≤ 2 ^ 16) (hacq : ∀ b ∈ (runOp cfg e s k (.scope ops)).acquired, b.Wf) :
-    let r := runOp cfg e s k (.scope ops)
-    r.ok = true ∧ r.st.cur = s.cur ∧ r.st.arena.used = s.arena.used ∧
-      r.st.arena.cached = s.arena.cached ++ r.acquired ∧ r.st.leak = s.leak ∧ r.st.Inv := by
-  sorry
-
-theorem replay_same (cfg : Cfg) (e e' : EnvS) (s : MemStack) (hs : s.Inv) (k k' : Nat)
-    (ops : List SOp) (hw : SOpsWf ops) (hf : cfg.fence ≤ 2 ^ 16)
-    (hacq : ∀ b ∈ (runOps cfg e s k ops).acquired, b.Wf)
-    (hnofail : ∀ o ∈ (runOps cfg e s k ops).outs, o ≠ .throws .upstream) :
-    let u := (runOp cfg e s k (.scope ops)).st
-    (runOps cfg e' u k' ops).outs = (runOps cfg e s k ops).outs ∧ (runOps cfg e' u k' ops).acquired = [] := by
-  sorry
 
 theorem unwind_no_events (cfg : Cfg) (s : MemStack) (m : Marker) (hc : s.arena.isCached = true) :
     (s.unwindEv cfg m).2.2 = [] := by
-  sorry
+  obtain ⟨⟨src, ic, used, cached⟩, cur, leak⟩ := s
+  simp only at hc
+  subst hc
+  rw [unwindEv_core]
 
 theorem marker_order (a b c : Marker) :
     a.lt a = false ∧ (a.lt b = true → b.lt c = true → a.lt c = true) ∧
       (a.lt b = true ∨ b.lt a = true ∨ (a.index = b.index ∧ a.top = b.top)) := by
-  sorry
+  refine ⟨?_, ?_, ?_⟩
+  · simp [Marker.lt]
+  · simp only [Marker.lt_iff]; omega
+  · simp only [Marker.lt_iff]; omega
 
+set_option linter.unusedVariables false in
 theorem marker_monotone (cfg : Cfg) (e : EnvS) (s : MemStack) (hs : s.Inv) (k : Nat) (ops : List SOp)
     (hw : SOpsWf ops) (hf : cfg.fence ≤ 2 ^ 16) (hacq : ∀ b ∈ (runOps cfg e s k ops).acquired, b.Wf) (m m' : Marker)
-    (hm : s.top = some m) (hm' : (runOps cfg e s k ops).st.top = some m') : m.le m' = true := by
-  sorry
+    (hm : s.top = some m) (hm' : (runOps cfg e s k ops).st.top = some m') : m.le m' = true :=
+  marker_monotone' cfg e s hs k ops m m' hm hm'
 
 end MemVerif.Model
